@@ -18,7 +18,7 @@ import json
 import re
 from typing import Any, Callable, Dict, List, Optional, Tuple
 
-from .. import core, gen, orderdep, wiregen, workers
+from .. import core, gen, orderdep, probes, wiregen, workers
 from ..jsonrpc_ref import classify
 from ..workers import dec, enc
 
@@ -464,6 +464,15 @@ def run(tier: str, only=None) -> core.Result:
     wcases = [wire_case(c) for c in cases]
     im_cases = inputmut_cases(tier, mcases) if (not only or "models" in only) else []
     im_join = start_inputmut(HANDLER, im_cases) if im_cases else None
+    pr_groups: Dict[str, List[Any]] = {}
+    pr_meta: Dict[str, List[Dict[str, Any]]] = {}
+    pr_join = None
+    if not only or "models" in only:
+        pr_meta = {"methods": probes.methods_cases(mcases), "eq": probes.eq_cases(mcases), "helper": probes.helper_cases()}
+        pr_groups = {"methods": [{"op": "methods", "target": c["target"], "wire": enc(c["wire"])} for c in pr_meta["methods"]],
+                     "eq": [{"op": "eqprobe", "target": c["target"], "a": enc(c["a"]), "b": enc(c["b"])} for c in pr_meta["eq"]],
+                     "helper": [{"op": "helper", "helper": c["helper"], "seq": c["seq"]} for c in pr_meta["helper"]]}
+        pr_join = probes.start(HANDLER, CONFIGS, pr_groups, n_each=3)
     extra_box: Dict[str, Any] = {}
 
     def run_extra():
@@ -668,6 +677,77 @@ def run(tier: str, only=None) -> core.Result:
                     store({**sig, "config": "fallback+stdlib"}, "with orjson masked in the fallback worker: " + msg,
                           {"target": c["target"], "part": c["part"], "label": c["label"], "wire": enc(c["wire"]), "config": "fallback+stdlib"})
 
+    # object-level probes: equality, reading does not change, stateful helpers (relational)
+    pr_info: Dict[str, Any] = {"equality_pairs": 0, "method_probe_objects": 0, "methods_called": 0, "helper_sequences": 0,
+                               "helpers_discovered": [], "disagreements": 0}
+    pr_audit = {"reasked": 0}
+    if pr_join is not None:
+        try:
+            pr_ans, pr_audits, pr_hello = pr_join()
+        except RuntimeError as e:
+            res.harness_errors.append(str(e))
+            pr_ans = None
+        if pr_ans is not None:
+            for n_, g_, a_ in pr_audits:
+                pr_audit["reasked"] += a_["reasked"]
+                if a_["mismatches"]:
+                    res.harness_errors.append(f"nondeterministic {g_} probe answer of the {n_} worker (case #{a_['first_mismatch_index']})")
+            helpers = pr_hello["pydantic"].get("helpers", [])
+            pr_info["helpers_discovered"] = helpers
+            if pr_hello["fallback"].get("helpers") != helpers:
+                res.harness_errors.append(f"the backends discover different stateful helpers: {helpers} vs {pr_hello['fallback'].get('helpers')}")
+            for h_ in helpers:
+                if h_ not in pr_hello["pydantic"].get("drivers", []):
+                    res.harness_errors.append(f"discovered stateful helper without a driver: {h_}")
+            for i, c in enumerate(pr_meta["eq"]):
+                ap, af = pr_ans["eq"]["pydantic"][i], pr_ans["eq"]["fallback"][i]
+                if not (ap.get("ok") and af.get("ok")) or wiregen.is_config_class(wiregen.resolve(c["target"])):
+                    continue
+                pr_info["equality_pairs"] += 1
+                for key_ in ("eq", "ne", "contains", "index", "hash_equal", "set_size", "eq_self"):
+                    if ap.get(key_) != af.get(key_):
+                        pr_info["disagreements"] += 1
+                        store({"class": "equality-differs", "model": wiregen.short(c["target"]), "pair": c["pair"], "what": key_,
+                               "pydantic": str(ap.get(key_)), "fallback": str(af.get(key_))},
+                              f"{wiregen.short(c['target'])}: a <- {json.dumps(c['a'], ensure_ascii=True)[:160]}, b <- "
+                              f"{json.dumps(c['b'], ensure_ascii=True)[:160]} ({c['pair']}{' ' + c.get('member', '') if c.get('member') else ''}): "
+                              f"'{key_}' is {ap.get(key_)} under Pydantic and {af.get(key_)} under the fallback",
+                              {"part": "probe", "probe": "eq", "case": {"op": "eqprobe", "target": c["target"], "a": enc(c["a"]), "b": enc(c["b"])}})
+                        break
+            for i, c in enumerate(pr_meta["methods"]):
+                ap, af = pr_ans["methods"]["pydantic"][i], pr_ans["methods"]["fallback"][i]
+                if not (ap.get("ok") and af.get("ok")):
+                    continue
+                if c["target"] != "parse_message" and wiregen.is_config_class(wiregen.resolve(c["target"])):
+                    continue
+                pr_info["method_probe_objects"] += 1
+                pr_info["methods_called"] += len(ap.get("called", [])) + len(af.get("called", []))
+                if bool(ap.get("changed")) != bool(af.get("changed")):
+                    side = "fallback" if af.get("changed") else "pydantic"
+                    ch = af.get("changed") or ap.get("changed")
+                    who = (af if af.get("changed") else ap).get("culprit")
+                    model = "parse_message" if c["target"] == "parse_message" else wiregen.short(c["target"])
+                    pr_info["disagreements"] += 1
+                    store({"class": "reading-the-object-changes-its-dump", "backend": side, "model": model, "call": who},
+                          f"{model} <- {json.dumps(c['wire'], ensure_ascii=True)[:200]}: after calling the public zero-argument methods / "
+                          f"properties of the object its dump differs at '{ch['path']}' ({ch['via']}) under {side} only; first call that "
+                          f"does it: {who}",
+                          {"part": "probe", "probe": "methods", "case": {"op": "methods", "target": c["target"], "wire": enc(c["wire"])}})
+            for i, c in enumerate(pr_meta["helper"]):
+                ap, af = pr_ans["helper"]["pydantic"][i], pr_ans["helper"]["fallback"][i]
+                pr_info["helper_sequences"] += 1
+                if "exc" in ap or "exc" in af or "no_driver" in ap:
+                    if workers.line(ap) != workers.line(af):
+                        res.harness_errors.append(f"helper driver {c['helper']} [{c['text']}]: {str(ap)[:150]} / {str(af)[:150]}")
+                    continue
+                if workers.line(ap) != workers.line(af):
+                    pr_info["disagreements"] += 1
+                    name = c["helper"].rpartition(":")[2]
+                    store({"class": "helper-output-differs", "helper": name, "operations": c["text"] if len(c["seq"]) <= 2 or name != "RootsManager" else "longer"},
+                          f"{name}: [{c['text']}] then the wire output: Pydantic {json.dumps(dec(ap['output']), ensure_ascii=True)[:220]} "
+                          f"fallback {json.dumps(dec(af['output']), ensure_ascii=True)[:220]}",
+                          {"part": "probe", "probe": "helper", "case": {"op": "helper", "helper": c["helper"], "seq": c["seq"]}})
+
     # input mutated after validation: what an already-built object dumps to must react to later edits of the wire object
     # it was built from in the same way under both backends (relational; C10 judges the declared containers absolutely)
     im_info: Dict[str, Any] = {"cases": 0, "positions_edited": 0, "edits": 0, "changes_both_backends_agree": 0,
@@ -777,6 +857,8 @@ def run(tier: str, only=None) -> core.Result:
                                                   for k, n in sorted(unjudged.items())}
     cov["audit_reasked"] = audit_total + im_audit["reasked"] + audit_extra["reasked"]
     cov["stdlib_codec_configurations"] = codec_info
+    cov["object_probes"] = pr_info
+    cov["audit_reasked"] += pr_audit["reasked"]
     cov["audit_mismatches"] = 0 if audit_order else audit_bad
     cov["audit_mismatches_explained_as_order_dependence"] = audit_bad if audit_order else 0
     cov["same_name_pair_order"] = pair_info
@@ -802,6 +884,7 @@ def run(tier: str, only=None) -> core.Result:
         "four configurations answer every case: {Pydantic, fallback} with orjson importable (the primary comparison) and with orjson masked; integers outside [-2^63, 2^64-1] are in the id, integer-member and free-form positions; nesting deeper than Pydantic's own serialiser follows and lone surrogates are outside the alphabet (Pydantic itself refuses to serialise them)",
         "two numbers are the same JSON value when numerically equal (1 and 1.0); members named id are compared with their JSON type",
         "transport parameter classes (chuk_mcp.transports.*: local configuration, never on the wire; their validators are pydantic decorators) are driven and compared, but their disagreements are listed under unjudged_config_class_disagreements instead of being reported",
+        "object probes: ==, !=, membership, list.index and hash of two objects of one class (equal / one member different / only an unknown member different) must behave the same under both backends; calling every public zero-argument method and property (discovered with dir()) must not change the dump under one backend only; every *Manager / *Registry class found under chuk_mcp.protocol is driven through all operation sequences up to length 3 and its wire output compared",
         "input mutated after validation: the wire object is edited in place at every dict/list position down to depth 2 (replace a scalar, delete a key/item, add a key/append, clear); both backends share the caller's objects inside free-form values (Any, the values of Dict[str, Any], unknown members), so C09 only demands that the built object reacts the same way under both",
         "agreement of attribute values that do not show in the class of a nested object or in the dump is not judged",
         "depth of nested models " + ("3" if tier == "thorough" else "2") + "; 'seeded large objects' of the quantifier are replaced by the covering arrays",
@@ -821,6 +904,12 @@ def replay_case(args: Dict[str, Any]) -> Dict[str, Any]:
 
     logging.disable(logging.CRITICAL)
     wiregen.discover()
+    if args.get("part") == "probe":
+        ans = {cfg["name"]: workers.fresh_sequence(cfg, HANDLER, [args["case"]])[0] for cfg in CONFIGS}
+        key_ = (lambda a: bool(a.get("changed"))) if args["probe"] == "methods" else workers.line
+        same = key_(ans["pydantic"]) == key_(ans["fallback"])
+        return {"probe": args["probe"], "answers": ans,
+                "violations": [] if same else [{"sig": {"class": "backends-differ", "probe": args["probe"]}, "msg": "the answers differ"}]}
     if args.get("part") in ("inputmut", "libedit"):
         x = {"op": "libedit", "scenario": args["scenario"], "params": args["params"]} if args["part"] == "libedit" else \
             {"op": "inputmut", "target": args["target"], "wire": args["wire"]}
